@@ -217,6 +217,56 @@ func runC09(c *Ctx) {
 	checkEarlyWgAccounting(c)
 	checkEarlyWgOrdering(c)
 
+	// ---------------------------------------------------------------- R8
+	c.rule("R8", "a reservation stays counted until the query it admitted is over: no release before the exchange it covers", 2)
+	for _, im := range []impl{{"tdcOneTimeExchanger", T + "TraditionalDnsConn.reservedQuery"}, {"lazyDnsConnEarlyReservedExchanger", T + "lazyDnsConn.reservedQuery"}} {
+		f := c.fn(relTransport, im.recv, "ExchangeReserved")
+		if f == nil {
+			continue
+		}
+		key := "held-until-done@" + funcName(f)
+		isInner := func(in ssa.Instruction) bool {
+			ci, ok := in.(*ssa.Call)
+			if !ok {
+				return false
+			}
+			if ci.Call.IsInvoke() {
+				return ci.Call.Method.Name() == "ExchangeReserved"
+			}
+			sc := staticCallee(ci)
+			return sc != nil && sc.Name() == "exchange" && inMosdns(sc)
+		}
+		nInner := 0
+		eachInstr(f, func(in ssa.Instruction) {
+			if isInner(in) {
+				nInner++
+			}
+		})
+		if nInner == 0 {
+			c.fail(key, f.Pos(), "no inner exchange found")
+			continue
+		}
+		bad := token.NoPos
+		eachInstr(f, func(in ssa.Instruction) {
+			rel := counterDelta(in, im.field) == -1
+			if ci, ok := in.(*ssa.Call); ok && !rel {
+				if sc := staticCallee(ci); sc != nil && inMosdns(sc) {
+					if _, mx, _ := decSummary(sc, im.field, 1); mx >= 1 {
+						rel = true
+					}
+				}
+			}
+			if !rel {
+				return
+			}
+			if _, reaches := reachAvoiding(in, isInner, nil); reaches {
+				bad = instrPos(in)
+			}
+		})
+		c.check(bad == token.NoPos, key, bad, "the reservation is released only by defer or after the exchange returned",
+			"the reservation is released before the exchange it covers starts: between the release and the query's entry into the waiter table the query is counted by neither, so a concurrent ReserveNewQuery admits one query more than the limit")
+	}
+
 	// ---------------------------------------------------------------- R4
 	c.rule("R4", "the admission test does not count an in-flight query twice; the waiter table is only entered with a reservation", 2)
 	resF := c.fn(relTransport, "TraditionalDnsConn", "ReserveNewQuery")
